@@ -54,6 +54,11 @@ THEOREMS = [
     "Verif.C03.pixel_time_seconds_spec",
     "Verif.C03.line_time_seconds_spec",
     "Verif.C03.duration_seconds_spec",
+    "Verif.C03.tsMean_no_overflow_span",
+    "Verif.C03.span_necessary_witness",
+    "Verif.C03.tsMean_floor_split_n",
+    "Verif.C03.line_range_exact_raw_shape",
+    "Verif.C03.kymo_geometry_ranges",
 ]
 RULE = (
     "corpus (F11 input, split-mode mean witness) + malformed stream (empty wave, nothing used, no boundary, interior "
@@ -283,10 +288,13 @@ def impl(case):
             return [k]
         return [_try(lambda: show_ll(k.timestamps))]
     if op == "kymo":
+        # the generated wave itself, compared with the Lean generator geomKymo (the domain kymo_geometry_ranges
+        # quantifies over) - a tie between the two generators, not an observation of the code
+        gen = [enc_list(iw)] if "geom" in case else []
         k = _try(lambda: build(case, iw, counts))
         if isinstance(k, str):
-            return [k] * 7
-        return [
+            return [k] * 7 + gen
+        return gen[:0] + [
             _try(lambda: show_ll(k.timestamps)),
             _try(lambda: show_ranges(k.line_timestamp_ranges())),
             _try(lambda: show_ranges(k.line_timestamp_ranges(include_dead_time=True))),
@@ -294,7 +302,7 @@ def impl(case):
             _try(lambda: enc_float(k.duration)),
             _try(lambda: enc_float(k.pixel_time_seconds)),
             _try(lambda: _sum_over(cstart, case["dt"], cdata, k.line_timestamp_ranges, lambda: k.get_image("green").sum(axis=0))),
-        ]
+        ] + gen
     if op == "scan":
         s = _try(lambda: build(case, iw, counts))
         if isinstance(s, str):
@@ -322,6 +330,11 @@ def impl(case):
     raise ValueError(op)
 
 
+def _geom_op(case, n):
+    g = case["geom"]
+    return f"c03.geom {g['lead']} {g['k']} {g['P']} {g['dead']} {g['lines']} {g.get('tail', 0)} {n}"
+
+
 def ops(case):
     op = case["op"]
     if op == "mean":
@@ -346,7 +359,7 @@ def ops(case):
             f"c03.kdur {w} {P}",
             f"c03.pt {w}",
             f"c03.ksum {w} {P} {enc_list(counts)} {cstart} {enc_list(cdata)}",
-        ]
+        ] + ([_geom_op(case, len(iw))] if "geom" in case else [])
     if op == "scan":
         P, L = case["P"], case["L"]
         return [
